@@ -1285,10 +1285,14 @@ class FnLower:
                 return ("v", Val("()", "unit"))
         if m == "to_vec" and not args and recv[0] == "path" and len(recv[1]) == 1 and recv[1][0] in env and env[recv[1][0]].kind == "list":
             return ("v", Val(env[recv[1][0]].lean, "list", [env[recv[1][0]].lean]))      # a copy: the same value
+        if m == "to_vec" and not args and recv[0] == "index" and strip_paren(recv[2])[0] == "range":      # phase 4m: `x[lo..hi].to_vec()`: a copy of a (bounds-checked) sub-slice
+            return ("v", self.list_arg(recv, env, ops, "to_vec"))
         if m in ("max", "min") and len(args) == 1:
             a, b = self.seq([lambda: self.ex(recv, env, ops), lambda: self.ex(args[0], env, ops)], ops)
             if a.ty in ("u64", "usize") and b.ty in ("u64", "usize", "int"):
                 return ("v", Val(f"({m} {a.atom} {b.atom})", a.ty, a.deps | b.deps))
+            if a.ty == "i64" and b.ty in ("i64", "int"):      # phase 4m: `x.max(0)` on isize / i64 (Int.max / Int.min)
+                return ("v", Val(f"({m} {a.atom} {b.atom})", "i64", a.deps | b.deps))
             self.fail(f"{m} on {a.ty}, {b.ty}")
         if m == "contains" and len(args) == 1 and recv[0] == "range":
             x = strip_paren(args[0])
@@ -1358,7 +1362,7 @@ class FnLower:
         if v.ty == "u32" and dst in ("u64", "usize", "u32"): return ("v", Val(v.atom, dst, v.deps))
         if v.ty in ("u64", "usize", "int") and dst == "u32": return ("v", Val(f"({v.atom} % 4294967296)", "u32", v.deps))     # truncating cast
         if v.ty in ("u64", "usize", "int") and dst == "i64": return ("v", Val(f"(asI64 {v.atom})", "i64", v.deps))
-        if v.ty == "i64" and dst == "u64": return ("v", Val(f"(asU64 {v.atom})", "u64", v.deps))
+        if v.ty == "i64" and dst in ("u64", "usize"): return ("v", Val(f"(asU64 {v.atom})", dst, v.deps))      # (`as usize`, phase 4m: 64-bit target)
         if v.ty in ("u8", "u64", "usize") and dst == "u128": return ("v", Val(v.atom, "u128", v.deps, widened=True))
         if v.ty == "u128" and dst == "u64":
             if inner[0] == "bin" and inner[1] == ">>" and strip_paren(inner[3])[0] == "num" and strip_paren(inner[3])[1] >= 64:
@@ -1896,6 +1900,10 @@ class FnLower2(FnLower):
             if e[0] == "mcall" and e[2] == "copy_from_slice" and len(e[3]) == 1:
                 # `x[a..b].copy_from_slice(&y[c..d])`: both sub-slices are bounds-checked (target first), lengths must agree (else panic)
                 tgt = strip_paren(e[1])
+                if self.opts.get("whole_copy") and tgt[0] == "path" and len(tgt[1]) == 1 and self.lookup(env, tgt[1][0]).kind == "list" and env[tgt[1][0]].mut:
+                    # phase 4m (tools/rs2lean_dec.py): `x.copy_from_slice(src)` of a WHOLE mutable slice variable: panics unless the lengths agree
+                    v = env[tgt[1][0]]; src = self.list_arg(e[3][0], env, ops, "copy_from_slice"); self.monadic_used = True
+                    ops.append(("bind", v.lean, f"copyWhole {v.lean} {src.atom}")); return nxt()
                 if not (tgt[0] == "index" and strip_paren(tgt[2])[0] == "range"): self.fail("copy_from_slice target is not a sub-slice", ln)
                 tb = strip_paren(tgt[1])
                 if not (tb[0] == "path" and len(tb[1]) == 1 and self.lookup(env, tb[1][0]).kind == "list" and env[tb[1][0]].mut): self.fail("copy_from_slice into something that is not a mutable slice variable", ln)
@@ -2286,7 +2294,7 @@ class FnLower2(FnLower):
         after = self.live_rest(stmts, i + 1, tail, k)
         brk = self.loop_brk[-1].live if self.loop_brk else set()
         inside = self.live_stmt(s, set(), brk) - {var}           # read inside the loop (before being written there)
-        asg = self.assigned_outer([body[0], body[1]], env)
+        asg = self.assigned_outer([body[0], body[1]], env, push=bool(self.opts.get("push_carried")))      # (phase 4m: table flag - a pushed-to Vec is loop-carried state)
         carried = [n for n in env if n in asg and (n in after or n in inside)]
         captured = [n for n in env if n in inside and n not in carried]
         if not carried: self.fail("nested loop without loop-carried state", ln)
@@ -2493,6 +2501,7 @@ class Skeleton:
                     self.used.add(key); out += parse_snippet(rep, "stmts", self.fn["name"]); continue
             if s[0] == "unsafe" and self.sk.get("unsafe_inline"):               # (task S) `unsafe { stmts }` = stmts; the raw-pointer expressions inside need table readings
                 ub = self.block(s[1])
+                if ub[1] is not None and strip_paren(ub[1])[0] == "if": ub = (ub[0] + [("expr", ub[1], None)], None)      # phase 4m: a trailing unit `if .. else ..`
                 if ub[1] is not None: self.lo.fail("`unsafe` block with a value")
                 out += ub[0]; continue
             if s[0] == "unsafe" and "unsafe" in self.sk.get("effects", {}):      # phase 4g: an `unsafe { .. }` block the table declares to be a pure data effect
@@ -2578,6 +2587,7 @@ class Skeleton:
         stmts = pro + body[0] + ([("expr", body[1], None)] if body[1] is not None else [])
         tail = None
         if epi and epi[-1][0] == "expr" and epi[-1][2] is None: tail = epi[-1][1]; epi = epi[:-1]
+        elif not epi and body[1] is not None and self.sk.get("keep_tail"): stmts = pro + body[0]; tail = body[1]      # phase 4m: the function's own tail value
         unused = [c for c in list(self.sk.get("handles", [])) + list(self.sk.get("exprs", {})) + list(self.sk.get("effects", {}))
                   if c not in self.used and c not in self.sk.get("optional", [])]      # `optional` (phase 4g): readings of sibling calls that need not occur
         if unused: self.lo.fail(f"skeleton table entries never matched: {unused}")
@@ -3926,6 +3936,9 @@ FILES += [("GaloisPlanFns.lean", _rs2lean_gal.SPEC)]
 
 import rs2lean_mp as _rs2lean_mp            # round 7 (worker W): Gen/MpFns.lean (tools/rs2lean_mp.py)
 FILES += [("MpFns.lean", _rs2lean_mp.SPEC)]
+
+import rs2lean_dec as _rs2lean_dec          # round 7 (worker A, phase 4m): Gen/DecFns.lean (tables in tools/rs2lean_dec.py)
+FILES += [("DecFns.lean", _rs2lean_dec.SPEC)]
 
 if __name__ == "__main__":
     res = gen_all(sys.argv[1])
